@@ -217,7 +217,7 @@ def obligations(tier):
     quick = tier == "quick"
     out = []
     for kind in ("Exchange", "Exchanger", "Exchangent"):
-        out.append(Ob("ctor/" + kind, h_ctor, dict(kind=kind), hang_s=240, budget=120, max_fail_keys=1,
+        out.append(Ob("ctor/" + kind, h_ctor, dict(kind=kind), hang_s=240, budget=120,
                       covers=["to-%s/rt-%s" % (a, b) for a in ("absent", "given") for b in ("absent", "given")],
                       bounds=dict(timeout=[0, CMAX], redoTimout=[0, CMAX], combos="absent/given x absent/given")))
     for kind in ("Exchange", "Exchanger"):
@@ -229,7 +229,7 @@ def obligations(tier):
                 n = (N_RESEND if resend else N_PLAIN)[tier]
                 name = "sched/%s/%s%s" % (kind, route, "/resend" if resend else "")
                 out.append(Ob(name, h_sched, dict(kind=kind, route=route, N=n, resend=resend),
-                              hang_s=240, budget=120 if quick else 1200, max_fail_keys=1,
+                              hang_s=240, budget=120 if quick else 1200,
                               covers=covers + (["new-latest-message"] if resend else []),
                               bounds=dict(timeout=[0, VMAX], redo=[0, VMAX], process_calls=n, advance=[0, DMAX],
                                           construct_stamp=[0, 20], start_delay=[0, DMAX], new_message_between_calls=resend)))
